@@ -259,6 +259,12 @@ class ImageViewerState(MatplotlibDataViewerState):
     @defer_draw
     def _on_xatt_world_change(self, *args, forced=False):
 
+        if self.x_att_world is None:
+            # There is nothing to choose from (e.g. the last dataset was
+            # removed), so the pixel attribute of the removed reference data
+            # should not be kept either
+            self.x_att = None
+
         if self.x_att_world is not None:
 
             with delay_callback(self, 'y_att_world', 'x_att'):
@@ -284,6 +290,9 @@ class ImageViewerState(MatplotlibDataViewerState):
 
     @defer_draw
     def _on_yatt_world_change(self, *args, forced=False):
+
+        if self.y_att_world is None:
+            self.y_att = None
 
         if self.y_att_world is not None:
 
